@@ -6,7 +6,7 @@ namespace SigV4
 
 /-! ### `splitOn`, `splitFirst`, `joinWith` -/
 
-theorem splitOn_ne_nil (sep : UInt8) (s : Bytes) : splitOn sep s ≠ [] := by
+theorem c03_splitOn_ne_nil (sep : UInt8) (s : Bytes) : splitOn sep s ≠ [] := by
   induction s with
   | nil => simp [splitOn]
   | cons c cs ih =>
@@ -15,15 +15,15 @@ theorem splitOn_ne_nil (sep : UInt8) (s : Bytes) : splitOn sep s ≠ [] := by
     · simp
     · split <;> simp
 
-theorem splitOn_cons_sep (sep : UInt8) (cs : Bytes) :
+theorem c03_splitOn_cons_sep (sep : UInt8) (cs : Bytes) :
     splitOn sep (sep :: cs) = [] :: splitOn sep cs := by
   rw [splitOn]; simp
 
-theorem splitOn_cons_ne {sep c : UInt8} (h : c ≠ sep) (cs p : Bytes) (ps : List Bytes)
+theorem c03_splitOn_cons_ne {sep c : UInt8} (h : c ≠ sep) (cs p : Bytes) (ps : List Bytes)
     (hs : splitOn sep cs = p :: ps) : splitOn sep (c :: cs) = (c :: p) :: ps := by
   rw [splitOn, if_neg h, hs]
 
-theorem joinWith_cons_cons (sep x y : Bytes) (rest : List Bytes) :
+theorem c03_joinWith_cons_cons (sep x y : Bytes) (rest : List Bytes) :
     joinWith sep (x :: y :: rest) = x ++ sep ++ joinWith sep (y :: rest) := by
   rw [joinWith]
 
@@ -37,20 +37,20 @@ theorem joinWith_splitOn (sep : UInt8) (s : Bytes) : joinWith [sep] (splitOn sep
   | cons c cs ih =>
     obtain ⟨p, ps, hps⟩ : ∃ p ps, splitOn sep cs = p :: ps := by
       cases h : splitOn sep cs with
-      | nil => exact absurd h (splitOn_ne_nil sep cs)
+      | nil => exact absurd h (c03_splitOn_ne_nil sep cs)
       | cons p ps => exact ⟨p, ps, rfl⟩
     by_cases hc : c = sep
     · subst hc
-      rw [splitOn_cons_sep, hps, joinWith_cons_cons, ← hps, ih]
+      rw [c03_splitOn_cons_sep, hps, c03_joinWith_cons_cons, ← hps, ih]
       rfl
-    · rw [splitOn_cons_ne hc cs p ps hps]
+    · rw [c03_splitOn_cons_ne hc cs p ps hps]
       rw [hps] at ih
       cases ps with
       | nil =>
         rw [joinWith_singleton] at ih ⊢
         rw [ih]
       | cons q qs =>
-        rw [joinWith_cons_cons] at ih ⊢
+        rw [c03_joinWith_cons_cons] at ih ⊢
         rw [← ih]
         simp
 
@@ -63,16 +63,16 @@ theorem splitFirst_of_splitOn_cons_cons (sep : UInt8) (s x y : Bytes) (rest : Li
   | cons c cs ih =>
     by_cases hc : c = sep
     · subst hc
-      rw [splitOn_cons_sep] at h
+      rw [c03_splitOn_cons_sep] at h
       injection h with hx hrest
       subst hx
       rw [← hrest, joinWith_splitOn]
       rw [splitFirst]; simp
     · obtain ⟨p, ps, hps⟩ : ∃ p ps, splitOn sep cs = p :: ps := by
         cases h' : splitOn sep cs with
-        | nil => exact absurd h' (splitOn_ne_nil sep cs)
+        | nil => exact absurd h' (c03_splitOn_ne_nil sep cs)
         | cons p ps => exact ⟨p, ps, rfl⟩
-      rw [splitOn_cons_ne hc cs p ps hps] at h
+      rw [c03_splitOn_cons_ne hc cs p ps hps] at h
       injection h with hx hrest
       subst hx; subst hrest
       rw [splitFirst, if_neg hc, ih p hps]
@@ -87,15 +87,15 @@ theorem splitFirst_fst_of_splitOn_cons (sep : UInt8) (s x : Bytes) (rest : List 
   | cons c cs ih =>
     by_cases hc : c = sep
     · subst hc
-      rw [splitOn_cons_sep] at h
+      rw [c03_splitOn_cons_sep] at h
       injection h with hx hrest
       subst hx
       rw [splitFirst]; simp
     · obtain ⟨p, ps, hps⟩ : ∃ p ps, splitOn sep cs = p :: ps := by
         cases h' : splitOn sep cs with
-        | nil => exact absurd h' (splitOn_ne_nil sep cs)
+        | nil => exact absurd h' (c03_splitOn_ne_nil sep cs)
         | cons p ps => exact ⟨p, ps, rfl⟩
-      rw [splitOn_cons_ne hc cs p ps hps] at h
+      rw [c03_splitOn_cons_ne hc cs p ps hps] at h
       injection h with hx hrest
       subst hx
       rw [splitFirst, if_neg hc]
@@ -185,7 +185,7 @@ theorem stringToSign_of_five (a : Authenticator) (ak d r sv t : Bytes)
 
 /-! ### Provider calls of `validateSignature` -/
 
-theorem getSigningKey_calls {σ : Type} (P : Provider σ) (s : σ) (a : Authenticator)
+theorem c03_getSigningKey_calls {σ : Type} (P : Provider σ) (s : σ) (a : Authenticator)
     (region service : Bytes) (c : ProviderReq)
     (hc : c ∈ (getSigningKey P s a region service).calls) : c = providerReqOf a region service := by
   unfold getSigningKey at hc
@@ -205,7 +205,7 @@ theorem validateSignature_calls {σ : Type} (H : Bytes → Bytes) (P : Provider 
   · split at hc
     · simp at hc
     · simp at hc
-    · apply getSigningKey_calls P s a region service c
+    · apply c03_getSigningKey_calls P s a region service c
       revert hc
       simp only []
       split
